@@ -3,3 +3,6 @@ pub mod gen;
 pub mod known;
 pub mod nat;
 pub mod props;
+pub mod hist;
+pub mod world;
+pub mod sys;
